@@ -16,6 +16,14 @@ P_TEMPLATE = {"name": "P", "decl": "clock x; int v;", "locations": [{"id": "id0"
               "edges": [{"src": "id0", "dst": "id1", "guard": "x >= 1", "assign": "v = 1"}, {"src": "id1", "dst": "id0"}]}
 
 
+BOUNDARY_EXPRS = ["-(-2147483648)", "- -2147483648", "1 - -2147483648", "-2147483648 - 1", "-(-i)", "i - -1", "-(i++)", "-(--i)", "i+++j", "i - --j", "!(!b1)", "-(-1.5)", "1.5 - -2.5",
+                  '"abc"', '"a b"', '"a\\\\b"', "fn(i, 2147483647)", "(b1 && (forall (q : int[0,2]) arr[q] > 0)) || i > 0", "(i > 0 ? (exists (q : int[0,1]) arr[q] == i) : b1) && b1",
+                  "(sum (q : int[0,2]) arr[q]) + 1", "b1 || (forall (q : int[0,2]) arr[q] > 0) && b1", "i * (j + k) * -(1)", "s.f + sa[1].g[0]", "arr[arr[0]]", "(i, j)", "i = (j, k)"]
+BOUNDARY_QUERIES = ["Pr[<=10](P.L1 U 1)", "Pr[<=10](1 U P.L2)", "Pr[<=10](<> 1)", "Pr[<=10](P.L1 U true)", "Pr[<=10]([] true)", 'saveStrategy("a\\\\b.json", S)', 'saveStrategy("dir/x y.json", S)',
+                    'loadStrategy{i}->{gx}("a\\\\b.json")', 'loadStrategy{}->{}("plain.json")', "E<> -(-2147483648) == i", "A[] -i <= -(-j)", "E<> (forall (q : int[0,2]) arr[q] >= 0) || P.L1",
+                    "A[] P.L1 imply (exists (q : int[0,1]) arr[q] > i) && P.v >= 0", "sup{P.L1 && i > -1}: i, -j", "E[<=10; 3](max: -(-i))", "simulate[<=10; 2]{-i, (i > 0 ? j : k)}"]
+
+
 def bound(b, runs=0):
     s = {"time": "<=10", "steps": "#<=10", "clock": "gx<=10"}[b]
     return "[%s%s]" % (s, "; %d" % runs if runs else "")
@@ -167,6 +175,17 @@ def run(tier):
                 got = re.sub(r"\s+", "", rt["s1"])
                 if want != got and "@" not in want:
                     drift += 1
+    # boundary literals and operand shapes the operator-centred universe of Lang.tla does not reach: negative literals under minus, string
+    # literals, strategy file names with characters that need escaping, until-forms with constant operands, quantifiers in operand position
+    bjobs = [{"id": "bx", "entry": "xml_buffer", "text": scaffold, "structure": False,
+              "roundtrip": [{"text": "strategy S = control: A[] P.L1", "query": True}] + [{"text": t, "part": "S_EXPRESSION"} for t in BOUNDARY_EXPRS] + [{"text": t, "query": True} for t in BOUNDARY_QUERIES]}]
+    bres = vf.run_jobs(bjobs, c.run_dir, variant="plain", name="rtb")["bx"]
+    if bres.get("main", {}).get("outcome") != "return" or "roundtrip" not in bres:
+        raise vf.MachineryError("scaffold failed for the boundary cases: %s" % json.dumps(bres)[:600])
+    bstats = {"ok": 0, "bad": 0, "skipped": 0}
+    for t, rt in zip(BOUNDARY_EXPRS + BOUNDARY_QUERIES, bres["roundtrip"][1:]):
+        bstats[classify(c, rt, "c03:boundary", t, {"kind": "query" if t in BOUNDARY_QUERIES else "expr", "decl": SCAFFOLD_DECL, "form": {"form": "boundary"}, "model": model})] += 1
+    c.cov["boundary_cases"] = bstats
     qres = res["q"]["roundtrip"][1:]
     qstats = {"ok": 0, "bad": 0, "skipped": 0}
     for q, it, rt in zip(queries, qitems, qres):
